@@ -4,6 +4,7 @@ CONSTANTS
   MaxInj = 1
   Classes <- AllClasses
   AutoChoices <- BothFlags
+  Layouts <- NoSleep
   Bug = "noreset"
 VIEW NoHist
 INVARIANT TypeOK
@@ -15,4 +16,7 @@ INVARIANT Contained
 INVARIANT NothingLeft
 PROPERTY BadStateDetected
 PROPERTY BadVelDetected
+PROPERTY AwakeAccDetected
+PROPERTY SleeperAccDetected
+PROPERTY TouchWakes
 CHECK_DEADLOCK FALSE
